@@ -22,6 +22,7 @@ import (
 	"github.com/brocaar/lorawan/applayer/clocksync"
 	"github.com/brocaar/lorawan/applayer/multicastsetup"
 	"github.com/brocaar/lorawan/backend/joinserver"
+	"github.com/brocaar/lorawan/band"
 	vs "github.com/brocaar/lorawan/verifsync"
 
 	"verifmc/props"
@@ -266,12 +267,55 @@ func runC10(tier string, sum *props.SchedSummary) []vs.Result {
 		},
 	}
 	res2 := vs.Explore(sc2, bound, budget)
+	// band objects from separate configuration calls: each thread configures and mutates its own instance
+	bandBody := func(name band.Name, add uint32) func() {
+		return func() {
+			b, err := band.GetConfig(name, false, lorawan.DwellTimeNoLimit)
+			if err != nil {
+				vs.Observe("err")
+				return
+			}
+			b.AddChannel(add, 0, 5)
+			b.DisableUplinkChannelIndex(1)
+			s, _ := band.VerifSnapshot(b)
+			vs.Observe(fmt.Sprintf("%v/%v/%d", b.GetEnabledUplinkChannelIndices(), b.GetCFList(band.LoRaWAN_1_0_3) != nil, len(s.UplinkChannels)))
+			pls := b.GetLinkADRReqPayloadsForEnabledUplinkChannelIndices([]int{0, 1, 2})
+			vs.Observe(fmt.Sprint(len(pls)))
+		}
+	}
+	var wantBand []string
+	{
+		rec := []string{}
+		for _, f := range []func(){bandBody(band.EU868, 867100000), bandBody(band.EU868, 867300000), bandBody(band.US915, 0)} {
+			_ = f
+		}
+		_ = rec
+	}
+	sc3 := vs.Scenario{
+		Name:  "band instances: two EU868 and one US915 configuration used by three threads",
+		Setup: func() {},
+		Threads: func() []vs.Thread {
+			return []vs.Thread{{Name: "B1-eu868", Body: bandBody(band.EU868, 867100000)}, {Name: "B2-eu868", Body: bandBody(band.EU868, 867300000)}, {Name: "B3-us915", Body: bandBody(band.US915, 0)}}
+		},
+		Check: func(x *vs.Execution) []vs.Problem {
+			got := fmt.Sprint(x.Obs["B1-eu868"], x.Obs["B2-eu868"], x.Obs["B3-us915"])
+			if wantBand == nil {
+				wantBand = []string{got}
+				return nil
+			}
+			if got != wantBand[0] {
+				return []vs.Problem{{Key: "band/result-depends-on-schedule", What: fmt.Sprintf("band observations %s under this schedule, %s under the first one", got, wantBand[0])}}
+			}
+			return nil
+		},
+	}
+	res3 := vs.Explore(sc3, bound, budget)
 	for _, r := range []vs.Result{res, resB} {
 		if r.BoundCompleted < 2 {
 			sum.Guards = append(sum.Guards, fmt.Sprintf("C10: scenario %q completed only preemption bound %d", r.Scenario, r.BoundCompleted))
 		}
 	}
-	return []vs.Result{res, resB, res2}
+	return []vs.Result{res, resB, res2, res3}
 }
 
 // ---------------------------------------------------------------- C16
@@ -348,6 +392,46 @@ func runC16(tier string, sum *props.SchedSummary) []vs.Result {
 			}
 			results = append(results, r)
 		}
+	}
+	// three concurrent requests (join 1.0, join 1.1 from a second device, rejoin from the first) with a preemption bound
+	{
+		a, b, d := kinds[0], kinds[1], kinds[2]
+		b.NwkKey, b.AppKey, b.DevEUI = props.C16KeysNwk[1], props.C16KeysApp[1], props.C16EUIs[1]
+		b.Nonce, b.DevAddr, b.JoinNonce, b.TxID = 0x2001, 0x0A0B0C0D, 0x0F0E0D, 200
+		d.Nonce, d.TxID = 0x3001, 300
+		cases := []props.C16Case{a, b, d}
+		alone := make([]string, 3)
+		for i, k := range cases {
+			_, body := props.C16Serve(props.C16Handler(cases, nil), k)
+			alone[i] = string(body)
+		}
+		sc := vs.Scenario{
+			Name:  "joinserver: join-1.0 || join-1.1 (other device) || rejoin-0",
+			Setup: func() {},
+			Threads: func() []vs.Thread {
+				h := props.C16Handler(cases, func(s string) { vs.Yield(s) })
+				var ts []vs.Thread
+				for i := range cases {
+					k := cases[i]
+					ts = append(ts, vs.Thread{Name: fmt.Sprintf("R%d", i), Body: func() { _, body := props.C16Serve(h, k); vs.Observe(string(body)) }})
+				}
+				return ts
+			},
+			Check: func(x *vs.Execution) []vs.Problem {
+				var out []vs.Problem
+				for i := range cases {
+					if o := x.Obs[fmt.Sprintf("R%d", i)]; len(o) != 1 || o[0] != alone[i] {
+						out = append(out, vs.Problem{Key: "joinserver/response-depends-on-concurrent-request", What: fmt.Sprintf("request %d answered %q with two other requests in flight, %q alone", i, o, alone[i])})
+					}
+				}
+				return out
+			},
+		}
+		b3 := 2
+		if tier == "thorough" {
+			b3 = 3
+		}
+		results = append(results, vs.Explore(sc, b3, budget*5))
 	}
 	if !interleavedAll {
 		sum.Guards = append(sum.Guards, "C16: every request pair needs at least one schedule with interleaved task stages")
